@@ -36,6 +36,7 @@ WORKLOADS = {
     "event_v2": ("w_event.cpp", ()),
     "event_auto": ("w_event.cpp", ()),
     "pass": ("w_event.cpp", ()),
+    "expr": ("w_expr.cpp", ()),
 }
 
 PROPS = {
@@ -144,5 +145,60 @@ PROPS = {
         real=["v1/v2 async_manual_reset_event", "async_auto_reset_event (+let_value_with_stop_token, let_value_with, just_void_or_done)",
               "async_pass (nothrow_async_pass<long>) + cancellable + completion_forwarder", "atomic_intrusive_list", "single_thread_context, inline_scheduler"],
         stub=["pthread layer, heap (usim)"],
+    ),
+    "C01": dict(
+        title="Exactly-once completion, never before start",
+        batches=[
+            B("w_expr.cpp", "expr", quick=14, thorough=240, params="faults=1", oracles=["c01."] + RT_LIVE),
+            B("w_expr.cpp", "expr", quick=8, thorough=120, params="faults=0", oracles=["c01."] + RT_LIVE),
+        ],
+        level_text=("Seeded sender-interpreter runs: a random expression tree (depth<=4, <=12 nodes, <=8 scripted leaves) over the real library adaptors, each node re-erased through a harness any_snd so that every edge is a tap; leaves complete inline or later on two actor threads with value/error/done and react to stop or ignore it; an external stop request is placed before start, after k yields or when a chosen leaf has started; faults: throwing callables, a throwing k-th Val copy, spurious weak-CAS failures and wake-ups; the root op state is destroyed inside the root receiver's completion in most runs. C01 oracles: at every tap and at the root at most one signal, none before start(), none without start, none after the root completed; every started node and leaf completes (lost completion = deadlock or end-of-run census)."),
+        level_note=("Trusted: usim stubs, harness erasure (any_snd hides statically selected paths: blocking specialisations etc.). Adaptors outside the interpreter's list are covered by the direct workloads (C06-C09, C13-C19) for their own exactly-once oracles."),
+        real=["just/just_error/just_done, then, upon_error, upon_done, let_value, let_error, let_done, finally, sequence, when_all (2-3), stop_when, unstoppable, via, on, with_query_value, materialize+dematerialize, done_as_optional, let_value_with_stop_source", "single_thread_context/manual_event_loop, inline_scheduler", "inplace_stop_source, inplace_stop_token_adapter, fused_stop_source"],
+        stub=["harness leaves, taps and erased any_snd plumbing (kit/expr.hpp)", "kit::sim_stop_source", "pthread layer, heap (usim)"],
+    ),
+    "C02": dict(
+        title="Exactly-once destruction, no touch after completion",
+        batches=[
+            B("w_expr.cpp", "expr", quick=14, thorough=240, params="faults=1", oracles=["c02."] + RT_MEM + RT_LIB),
+            B("w_expr.cpp", "expr", quick=8, thorough=120, params="faults=0", oracles=["c02."] + RT_MEM + RT_LIB),
+        ],
+        level_text=("Seeded sender-interpreter runs: a random expression tree (depth<=4, <=12 nodes, <=8 scripted leaves) over the real library adaptors, each node re-erased through a harness any_snd so that every edge is a tap; leaves complete inline or later on two actor threads with value/error/done and react to stop or ignore it; an external stop request is placed before start, after k yields or when a chosen leaf has started; faults: throwing callables, a throwing k-th Val copy, spurious weak-CAS failures and wake-ups; the root op state is destroyed inside the root receiver's completion in most runs. C02 oracles: tracked Val objects (construct-on-live, double destroy, use after destroy, leak), every op state of every node destroyed exactly once and never while started-and-uncompleted, arena leak check, shadow memory on every library access after the root op was freed inside its completion."),
+        level_note=('Trusted: as C01. Allocation-failure injection is not yet wired into this workload (spawn/allocate are in the scope/future checks).'),
+        real=["just/just_error/just_done, then, upon_error, upon_done, let_value, let_error, let_done, finally, sequence, when_all (2-3), stop_when, unstoppable, via, on, with_query_value, materialize+dematerialize, done_as_optional, let_value_with_stop_source", "single_thread_context/manual_event_loop, inline_scheduler", "inplace_stop_source, inplace_stop_token_adapter, fused_stop_source"],
+        stub=["harness leaves, taps and erased any_snd plumbing (kit/expr.hpp)", "kit::sim_stop_source", "pthread layer, heap (usim)"],
+    ),
+    "C04": dict(
+        title="Stop requests reach running children; no callback outlives completion",
+        batches=[
+            B("w_expr.cpp", "expr", quick=14, thorough=240, params="faults=1", oracles=["c04."] + RT_LIVE),
+            B("w_expr.cpp", "expr", quick=8, thorough=120, params="faults=0", oracles=["c04."] + RT_LIVE),
+        ],
+        level_text=("Seeded sender-interpreter runs: a random expression tree (depth<=4, <=12 nodes, <=8 scripted leaves) over the real library adaptors, each node re-erased through a harness any_snd so that every edge is a tap; leaves complete inline or later on two actor threads with value/error/done and react to stop or ignore it; an external stop request is placed before start, after k yields or when a chosen leaf has started; faults: throwing callables, a throwing k-th Val copy, spurious weak-CAS failures and wake-ups; the root op state is destroyed inside the root receiver's completion in most runs. C04 oracles: a leaf that completes after the external request_stop() returned (and is not under unstoppable) sees stop_requested()==true on the token it was given; leaves started after it start already-stopped; losers of when_all / stop_when see the internal stop; with the counting harness stop source at the root no registration is live when the root receiver is entered and the source is never touched afterwards."),
+        level_note=('Trusted: as C01. Only when_all, stop_when and let_value_with_stop_source interpose stop sources in this workload; take_until/futures/scopes are in their own checks.'),
+        real=["just/just_error/just_done, then, upon_error, upon_done, let_value, let_error, let_done, finally, sequence, when_all (2-3), stop_when, unstoppable, via, on, with_query_value, materialize+dematerialize, done_as_optional, let_value_with_stop_source", "single_thread_context/manual_event_loop, inline_scheduler", "inplace_stop_source, inplace_stop_token_adapter, fused_stop_source"],
+        stub=["harness leaves, taps and erased any_snd plumbing (kit/expr.hpp)", "kit::sim_stop_source", "pthread layer, heap (usim)"],
+    ),
+    "C05": dict(
+        title="Algorithm results equal the documented function",
+        batches=[
+            B("w_expr.cpp", "expr", quick=14, thorough=240, params="faults=1", oracles=["c05."]),
+            B("w_expr.cpp", "expr", quick=8, thorough=120, params="faults=0", oracles=["c05."]),
+        ],
+        level_text=("Seeded sender-interpreter runs: a random expression tree (depth<=4, <=12 nodes, <=8 scripted leaves) over the real library adaptors, each node re-erased through a harness any_snd so that every edge is a tap; leaves complete inline or later on two actor threads with value/error/done and react to stop or ignore it; an external stop request is placed before start, after k yields or when a chosen leaf has started; faults: throwing callables, a throwing k-th Val copy, spurious weak-CAS failures and wake-ups; the root op state is destroyed inside the root receiver's completion in most runs. C05 oracles: a local reference model evaluated at every tap instance from the *observed* child outcomes: then/upon_*/let_* fire exactly on their channel and forward the others, throwing callables become set_error(that exception), sequence/let/finally start the next step only after the previous completed and short-circuit, when_all yields all values or the first error/done (overlapping completions: either), stop_when the source's result, done_as_optional/materialize round trips, via/on forward (done allowed only when a stop could be visible); callable invocation counts equal matching child completions."),
+        level_note=('Trusted: as C01; the model encodes doc/api_reference.md plus the precedence rules read from the code (Appendix C of DESIGN.md). when_any, retry_when, repeat_effect_until, into_variant, variant_sender and sync_wait are not yet in the interpreter.'),
+        real=["just/just_error/just_done, then, upon_error, upon_done, let_value, let_error, let_done, finally, sequence, when_all (2-3), stop_when, unstoppable, via, on, with_query_value, materialize+dematerialize, done_as_optional, let_value_with_stop_source", "single_thread_context/manual_event_loop, inline_scheduler", "inplace_stop_source, inplace_stop_token_adapter, fused_stop_source"],
+        stub=["harness leaves, taps and erased any_snd plumbing (kit/expr.hpp)", "kit::sim_stop_source", "pthread layer, heap (usim)"],
+    ),
+    "C12": dict(
+        title="Receiver queries reach all children",
+        batches=[
+            B("w_expr.cpp", "expr", quick=8, thorough=90, params="faults=1", oracles=["c12.", "c04.started-after-stop", "c04.child-not-stopped", "c04.loser-not-stopped"]),
+            B("w_expr.cpp", "expr", quick=4, thorough=45, params="faults=0", oracles=["c12.", "c04.started-after-stop", "c04.child-not-stopped", "c04.loser-not-stopped"]),
+        ],
+        level_text=("Seeded sender-interpreter runs: a random expression tree (depth<=4, <=12 nodes, <=8 scripted leaves) over the real library adaptors, each node re-erased through a harness any_snd so that every edge is a tap; leaves complete inline or later on two actor threads with value/error/done and react to stop or ignore it; an external stop request is placed before start, after k yields or when a chosen leaf has started; faults: throwing callables, a throwing k-th Val copy, spurious weak-CAS failures and wake-ups; the root op state is destroyed inside the root receiver's completion in most runs. C12 oracle: every started leaf records get_scheduler / get_allocator / a custom query CPO as seen through the receiver it was given; they must equal the root receiver's answers modified only by on (scheduler) and with_query_value (custom CPO) on the path; get_stop_token chaining is decided by C04's oracles on the same runs."),
+        level_note=('Honest scope: the forwarding clause is a function of the program only; the simulator contributes the generated programs. allocate()/spawn allocator pairing is not yet covered.'),
+        real=["just/just_error/just_done, then, upon_error, upon_done, let_value, let_error, let_done, finally, sequence, when_all (2-3), stop_when, unstoppable, via, on, with_query_value, materialize+dematerialize, done_as_optional, let_value_with_stop_source", "single_thread_context/manual_event_loop, inline_scheduler", "inplace_stop_source, inplace_stop_token_adapter, fused_stop_source"],
+        stub=["harness leaves, taps and erased any_snd plumbing (kit/expr.hpp)", "kit::sim_stop_source", "pthread layer, heap (usim)"],
     ),
 }
